@@ -2,7 +2,7 @@
 from core import term as T
 
 ID = "C13"
-GEN = ["nodemaker"]
+GEN = ["nodemaker", "mutpins"]
 RULE = ("cases: interleavings of up to 8 requested operations (synchronous success / synchronous exception / asynchronous) "
         "and completions (success or failure) of the running one, chosen by the seeded PRNG (bounded exhaustive over all "
         "interleavings of <= 4 operations in the thorough tier); non-trivial = at least two operations requested while "
